@@ -95,6 +95,18 @@ def in_domain(v):
         return False
 
 
+def recording_in_domain(data, md):
+    """Serializer-domain gate for a whole recording, asked of jsonpickle directly: the graph as the in-memory/file cassettes
+    encode it, as the S3 cassette encodes it, and every value alone (get_data copies one value through the serializer)."""
+    if not in_domain({'recording_data': data, 'recording_metadata': md}):
+        return False
+    if not in_domain(dict(data, _metadata=md)):
+        return False
+    if not in_domain(md):
+        return False
+    return all(in_domain(v) for v in data.values())
+
+
 def fresh(v):
     """Harness-side deep copy that does not go through playback or jsonpickle."""
     return copy.deepcopy(v)
